@@ -766,6 +766,9 @@ func vfC03Scenario(res *vfh.Result, cf *vfC03Conf, name string, seed int64, race
 			return err
 		}
 		res.Inc("trace_events", rp.tr.Len())
+		if evs := rp.tr.Events(); len(evs) > 40 {
+			res.Sample(map[string]any{"trace": name, "events_30_to_36": evs[30:36]})
+		}
 	}
 	return nil
 }
